@@ -64,6 +64,9 @@ func (u *User) init() error {
 		}
 	}
 
+	// 每次都从当前的权限串重新编译；否则更新用户时旧的匹配器仍然有效，收窄或清空权限不起作用
+	u.pushMatchers = nil
+	u.pullMatchers = nil
 	initMatchers(u.PushAccess, &u.pushMatchers)
 	initMatchers(u.PullAccess, &u.pullMatchers)
 	return nil
